@@ -1,14 +1,23 @@
 #!/usr/bin/env python3
-"""Prints the DESIGN.md §12.2 table from /verif/seeded/*/meta.json."""
-import json, glob, os
+"""Prints the DESIGN.md §12.2 table from /verif/seeded/*/meta.json (the full text of each change is
+in its meta.json; this table is the index of which check catches which change).
+With --write, replaces the block between the SEEDED-TABLE markers in DESIGN.md."""
+import json, glob, os, sys
 rows = []
 for d in sorted(glob.glob("/verif/seeded/*")):
     m = json.load(open(os.path.join(d, "meta.json")))
     c = m.get("confirmed_by_me", {})
-    def cell(s, n=260):
+    def cell(s, n):
         s = " ".join(str(s).split()).replace("|", "\\|")
         return s if len(s) <= n else s[: n - 1] + "…"
-    rows.append(f"| `{os.path.basename(d)}` | {m.get('property')} | {cell(m.get('summary',''), 330)} | {cell(m.get('needs_to_manifest',''), 260)} | {cell(c.get('caught_by','—'), 300)} |")
-print("| seeded change | property | what was changed | what it needs to manifest | caught by (quick tier) |")
-print("|---|---|---|---|---|")
-print("\n".join(rows))
+    rows.append(f"| `{os.path.basename(d)}` | {cell(m.get('needs_to_manifest',''), 170)} | {cell(c.get('caught_by','—'), 420)} |")
+table = "| seeded change (see `seeded/<name>/meta.json`) | needs, to manifest | caught by (quick tier, against a scratch copy with the change applied) |\n|---|---|---|\n" + "\n".join(rows) + "\n"
+if "--write" in sys.argv:
+    p = "/verif/DESIGN.md"
+    s = open(p).read()
+    a, b = "<!-- SEEDED-TABLE-BEGIN -->\n", "<!-- SEEDED-TABLE-END -->\n"
+    i, j = s.index(a) + len(a), s.index(b)
+    open(p, "w").write(s[:i] + table + s[j:])
+    print("DESIGN.md updated:", len(rows), "rows")
+else:
+    print(table)
